@@ -1353,6 +1353,15 @@ impl Config {
         insert(
             &mut res, "repository-dir", self.cache_dir.display().to_string()
         );
+        insert(&mut res, "no-rir-tals", self.no_rir_tals);
+        insert(
+            &mut res, "tals",
+            toml::Value::Array(
+                self.bundled_tals.iter().map(|s| {
+                    toml::Value::from(s.clone())
+                }).collect()
+            )
+        );
         if let Some(extra_tals_dir) = self.extra_tals_dir.as_ref() {
             insert(
                 &mut res, "extra-tals-dir",
@@ -1926,7 +1935,12 @@ struct GlobalArgs {
     dirty_repository: bool,
 
     /// Number of threads for validation
-    #[arg(long, value_name = "COUNT")]
+    #[arg(
+        long,
+        value_name = "COUNT",
+        value_parser = clap::builder::RangedU64ValueParser::<usize>::new()
+            .range(..=65535)
+    )]
     validation_threads: Option<usize>,
 
     /// Log more information, twice for even more
@@ -1979,7 +1993,12 @@ struct ServerArgs {
     expire: Option<u64>,
 
     /// Number of history items to keep [default 10]
-    #[arg(long, value_name = "COUNT")]
+    #[arg(
+        long,
+        value_name = "COUNT",
+        value_parser = clap::builder::RangedU64ValueParser::<usize>::new()
+            .range(..=65535)
+    )]
     history: Option<usize>,
 
     /// Listen on address/port for RTR
@@ -2639,7 +2658,7 @@ fn facility_to_string(facility: Facility) -> String {
         LOG_NTP => "ntp",
         LOG_AUDIT => "audit",
         LOG_ALERT => "alert",
-        LOG_CLOCK_DAEMON => "clockdaemon",
+        LOG_CLOCK_DAEMON => "clock_daemon",
         LOG_LOCAL0 => "local0",
         LOG_LOCAL1 => "local1",
         LOG_LOCAL2 => "local2",
